@@ -221,6 +221,19 @@ def check_case(case, acc):
         if raw.dtype.kind in "iu":
             exact[which] = [[int(v) for v in row] for row in raw.tolist()]
     problems = {}
+    # not from the initial state: the same formula text builds another design on other data (other level sets and orders,
+    # other numbers) before this one evaluates anything
+    try:
+        other = df.iloc[::-1].reset_index(drop=True).copy()
+        for c_ in ("f", "g", "h", "cs", "u"):
+            other[c_] = [{"a": "zb", "b": "a", "c": "b"}.get(v, str(v) + "_") for v in other[c_].astype(str)]
+        other["k"] = other["k"] * 3 + 1
+        for c_ in ("x", "z", "xb", "xt"):
+            other[c_] = other[c_] * 2.5 + 10
+        acc.calls += 1
+        build(f, other)
+    except Exception:
+        pass
     nframes = 0
     variants = []
     tail = []
